@@ -132,6 +132,9 @@ func VerifC08Commands() {
 		err := conn.write(l)
 		vAssert(err == nil, "write-ok")
 	}
+	for _, x := range w.written {
+		vObserve("wire", x)
+	}
 	vAssert(len(w.written) == len(lines), "one-flush-per-line")
 	if len(w.written) == len(lines) {
 		for i, l := range lines {
